@@ -41,7 +41,8 @@ pub fn build_archive_opt(par: &Par, labels: &[Value], sink: SharedSink, flush_al
         d.account(lab);
         match lab["op"].as_str().unwrap() {
             "start" => {
-                names.insert(id.unwrap(), lab["n"].as_str().unwrap().to_string());
+                // contents are addressed by the MODEL's id (the real one is the writer's choice)
+                names.insert(lab.get("id").and_then(Value::as_u64).unwrap_or_else(|| id.unwrap()), lab["n"].as_str().unwrap().to_string());
             }
             "add" => {
                 names.insert(lab["id"].as_u64().unwrap(), lab["n"].as_str().unwrap().to_string());
